@@ -343,6 +343,56 @@ def k2_one_iteration(present: List[bool]) -> bool:
     return n_bin == want_bin and n_text == len(files) - want_bin
 
 
+REF_SPECS = [['/cwd/out*'], ['/cwd/outdir'], ['/cwd/out1.txt'], ['/cwd/o*', '/cwd/outdir'], ['/cwd/*.txt'],
+             ['/cwd/nomatch*', '/cwd/other.txt']]
+WORLD = ['/cwd/out1.txt', '/cwd/outdir/a.txt', '/cwd/other.txt', '/cwd/outdir/deep/b.txt']
+
+
+def k4_named_by_glob_or_directory(present: List[bool], spec: int) -> bool:
+    """
+    pre: len(present) == len(WORLD) and 0 <= spec < len(REF_SPECS)
+    post: __return__
+    """
+    # output files may be named explicitly, by directory or by glob: what generation goes on to copy and test is
+    # then a set of existing FILES - every file under a named or matched directory, every matched file - and
+    # never a directory or an unexpanded pattern
+    import copy
+    import fnmatch
+    import io
+    import contextlib
+    names = REF_SPECS[0]
+    for k in range(len(REF_SPECS)):
+        if spec == k:
+            names = REF_SPECS[k]
+    files = {p_: 'x' for p_, on in zip(WORLD, present) if on}
+    dirs = ['/cwd', '/cwd/outdir', '/cwd/outdir/deep']
+    fs = fakefs.FakeFS(files, dirs=dirs)
+    saved_glob = gentest.glob
+    gentest.glob = fakefs.FakeGlob(fs)
+    try:
+        with fakefs.patched(fs, gentest):
+            g = copy.copy(_BASE)
+            g.snapshot = {}
+            g.reference_files = {1: set(names)}
+            with contextlib.redirect_stdout(io.StringIO()):
+                g.update_reference_files(1)
+            got = set(g.reference_files[1])
+    finally:
+        gentest.glob = saved_glob
+    want = set()
+    for n in names:
+        if '*' not in n and '?' not in n and n not in dirs:
+            want.add(n)         # a plainly named file is kept as named (whether it exists is settled later)
+        for f in files:
+            hit = fnmatch.fnmatchcase(f, n) and f.count('/') == n.count('/')
+            for d in dirs:
+                if (d == n or (fnmatch.fnmatchcase(d, n) and d.count('/') == n.count('/'))) and f.startswith(d + '/'):
+                    hit = True
+            if hit:
+                want.add(f)
+    return got == want
+
+
 def k3_deleters_guard() -> bool:
     """
     post: __return__
@@ -379,6 +429,12 @@ def _obs():
                       'distinct, and distinct from the stream/exit-code/exception tests',
                       '3 basenames: every string len 1..%d, 1..2 and 1 over %r (symbolic index per position)' % (n, FILE_ALPHABET), param={'n': n},
                       timeout=to, tier=tier))
+    obs.append(Ob('K4', 'k4_named_by_glob_or_directory', 'update_reference_files turns output files named explicitly, '
+                  'by directory or by glob into exactly the existing files they denote (directories - also ones a glob '
+                  'matched - expanded recursively), never leaving a directory or a pattern in the list',
+                  'symbolic subset of %d files in a 3-directory tree; %d naming forms (glob matching files and a '
+                  'directory, directory, file, mixtures, a pattern matching nothing)' % (len(WORLD), len(REF_SPECS)),
+                  timeout=300, stubs=['fakefs', 'glob -> FakeGlob over the fake file system', 'os.stat -> constant ctime']))
     obs.append(Ob('K2', 'k2_one_iteration', 'with a single run (no per-file type information) write_script finishes '
                   'and writes a compiling script with one text or binary file test per output file, wherever the '
                   'file lies', 'symbolic subset of %d output files (in the working directory, below it, outside it; '
